@@ -38,6 +38,10 @@ fn describe(c: &Case) -> Value {
 }
 
 pub fn make_case(class: u64, idx: u64, seed: u64) -> Case {
+    if class == 3 {
+        // credential sizes sweeping the length boundaries of the PDUs that carry them (shared with C04)
+        return crate::props::c04::make_case(3, idx, seed);
+    }
     let mut r = Rng::derive(seed, "C03", class, idx);
     let tls = class == 1;
     let mut cfg = gen::conncfg(&mut r, true);
@@ -347,7 +351,7 @@ pub fn check_case(c: &Case, rep: &mut Report) {
 pub fn run(cfg: &Cfg) -> Report {
     let seed = cfg.seed;
     let mut total = Report::new();
-    let plan: Vec<(u64, u64)> = vec![(0, cfg.n(6_000, 1_500_000)), (1, cfg.n(600, 150_000)), (2, if cfg.quick() { 300 } else { 64535 })];
+    let plan: Vec<(u64, u64)> = vec![(0, cfg.n(6_000, 1_500_000)), (1, cfg.n(600, 150_000)), (2, if cfg.quick() { 300 } else { 64535 }), (3, cfg.n(140 * 4, 140 * 200))];
     for (class, n) in plan {
         if !cfg.wants(class) {
             continue;
